@@ -524,9 +524,8 @@ def _m_a2b_base64(data):
                 raise Unsupported("model: foreign character in a2b_base64 input")
             gs.append(z3.BitVecVal(lookup[c], 6))
         else:
-            if not sym._forced(z3.Or(*[c == v for v in b64ref.STD_B64])):
-                if not bool(SBool(z3.Or(*[c == v for v in b64ref.STD_B64]))):
-                    raise Unsupported("model: foreign character in a2b_base64 input")
+            if not sym.elem_in(c, list(b64ref.STD_B64)):
+                raise Unsupported("model: foreign character in a2b_base64 input")
             d = dec[SInt(c, 8)]
             gs.append(d.ext(6) if d.w <= 6 else d.trunc(6).e)
     if len(gs) % 4 == 1:
@@ -685,10 +684,8 @@ def _m_b32decode(data, casefold=False):
                 raise binascii.Error("Non-base32 digit found")
             gs.append(z3.BitVecVal(lookup[c], 5))
         else:
-            okc = z3.Or(*[c == v for v in lookup])
-            if not sym._forced(okc):
-                if not bool(SBool(okc)):
-                    raise binascii.Error("Non-base32 digit found")
+            if not sym.elem_in(c, list(lookup)):
+                raise binascii.Error("Non-base32 digit found")
             d = dec[SInt(c, 8)]
             gs.append(d.ext(5) if d.w <= 5 else d.trunc(5).e)
     return SBytes(b64ref.bytes5(gs))
